@@ -470,6 +470,7 @@ void c05_case(Ctx& c, Rng& r) {
     struct Local { std::int64_t deadline; bool reported{false}; int reports{0}; };
     std::map<std::string, Local> locals;      // chunks stored locally (unique ids)
     std::vector<std::string> notifications;
+    std::vector<std::pair<ChunkId, std::string>> local_uris;
     unsigned next_id = 0;
     const auto nops = 10 + r.below(50);
     std::uint64_t sig = 0;
@@ -516,11 +517,25 @@ void c05_case(Ctx& c, Rng& r) {
         if (k <= 2) {
             const auto id = fx::chunk_id_n(next_id++);
             const std::int64_t ttl = static_cast<std::int64_t>(r.below(static_cast<std::uint64_t>(mx + 5)));
-            f.node->store_chunk(id, r.bytes(8 + r.below(40)), seconds(ttl));
+            const auto stored_manifest = f.node->store_chunk(id, r.bytes(8 + r.below(40)), seconds(ttl));
             const std::int64_t eff = clampi(ttl > 0 ? ttl : clampi(cfg.default_chunk_ttl.count(), mn, mx), mn, mx);
             locals[chunk_id_to_string(id)] = Local{fx::steady_ns() + eff * NS};
+            local_uris.emplace_back(id, protocol::encode_manifest(stored_manifest));
             c.note("ops.store");
             sig = hx::mix(sig, 1);
+        } else if (k == 4 && !local_uris.empty() && r.chance(1, 2)) {
+            // a peer announces a chunk this node stores itself: a second provider on the same locator, with its own lifetime
+            const auto& [id, uri] = local_uris[r.below(local_uris.size())];
+            protocol::Message m{};
+            m.type = protocol::MessageType::Announce;
+            protocol::AnnouncePayload ap{};
+            ap.chunk_id = id; ap.peer_id = peer.id; ap.endpoint = "203.0.113.9:4000"; ap.ttl = seconds(1 + r.below(static_cast<std::uint64_t>(mx)));
+            ap.manifest_uri = uri;
+            m.payload = ap;
+            f.deliver(peer, m);
+            f.drain(peer);
+            c.note("ops.announce-of-a-locally-stored-chunk");
+            sig = hx::mix(sig, 9);
         } else if (k <= 4) {
             // manifest from elsewhere: ingest or announce (adds cached manifest, key shares, plan, provider contact)
             const auto id = fx::chunk_id_n(1000 + next_id++);
